@@ -153,7 +153,7 @@ fn enumerate(t: Tier, shard: usize, nshards: usize, f: &mut dyn FnMut(Case) -> b
 pub fn def() -> PropDef {
     PropDef {
         id: "C05",
-        rule: "cases = (family, group in {P,N,NPN}, f); the returned (table, perm, mask) must satisfy: perm is a permutation of 0..n, mask has no bit above n (P: mask=0 by type, N: perm=identity by type), and g(y) = f(x) ^ mask[n] with x[perm[i]] = y[i] ^ mask[i], evaluated by the harness on every assignment, equals the returned table; then the returned table is canonized again and that second certificate is checked too, so every case also exercises an argument that is already its own representative. Exhaustive for all f of n<=3 (quick) / n<=4 (thorough) x 3 groups x 2 families; generated f (table generator + few-ones + symmetric + partially symmetric + weighted-vote classes) for n in 0..=7, and n=8 in `large`. walkpos: the same certificate check on inputs built (as in C04/walkpos) so that the library's walk meets the orbit minimum at a chosen compare point: first three, last two, around the middle, around a block boundary, or uniformly drawn. Non-trivial = the certificate is not the identity and the function is not invariant under it; fixed-point and totally symmetric inputs are labelled.",
+        rule: "cases = (family, group in {P,N,NPN}, f); the returned (table, perm, mask) must satisfy: perm is a permutation of 0..n, mask has no bit above n (P: mask=0 by type, N: perm=identity by type), and g(y) = f(x) ^ mask[n] with x[perm[i]] = y[i] ^ mask[i], evaluated by the harness on every assignment, equals the returned table; then the returned table is canonized again and that second certificate is checked too, so every case also exercises an argument that is already its own representative. Exhaustive for all f of n<=3 (quick) / n<=4 (thorough) x 3 groups x 2 families; generated f (table generator + few-ones + symmetric + partially symmetric + weighted-vote + multiplexer-of-self-dual-functions classes) for n in 0..=7, and n=8 in `large`. walkpos: the same certificate check on inputs built (as in C04/walkpos) so that the library's walk meets the orbit minimum at a chosen compare point: first three, last two, around the middle, around a block boundary, or uniformly drawn. Non-trivial = the certificate is not the identity and the function is not invariant under it; fixed-point and totally symmetric inputs are labelled.",
         assumptions: vec![
             "value(), from_blocks()/set_bit() as observation/loading channel",
             "a canonization call that panics is skipped here (normal termination for every n is C04)",
